@@ -66,10 +66,14 @@ pub struct FaultRates {
   /// well as before it: lets another thread run between "published" and the plain memory
   /// accesses that follow (a slot released before it was read, a flag set before the data)
   pub post_write_yield: bool,
+  /// `hint::spin_loop()` is an ordinary scheduling point instead of a yield that hands the
+  /// processor to somebody else: on real hardware a spin iteration gives no other thread a turn,
+  /// so a window that a forced switch at every spin would always close stays open
+  pub lazy_spin: bool,
 }
 
 thread_local! {
-  static RATES: Cell<FaultRates> = const { Cell::new(FaultRates { cas_weak: 0, spurious_park_return: 0, post_write_yield: false }) };
+  static RATES: Cell<FaultRates> = const { Cell::new(FaultRates { cas_weak: 0, spurious_park_return: 0, post_write_yield: false, lazy_spin: false }) };
   static FAULTS: RefCell<BTreeMap<&'static str, u64>> = const { RefCell::new(BTreeMap::new()) };
   static PROBES: RefCell<BTreeMap<&'static str, u64>> = const { RefCell::new(BTreeMap::new()) };
   static SEQ: Cell<u64> = const { Cell::new(0) };
@@ -111,6 +115,17 @@ pub fn after_write() {
     SWITCH_POINT.with(|a| {
       let _ = a.load(std::sync::atomic::Ordering::SeqCst);
     });
+  }
+}
+
+/// `hint::spin_loop()`: a yield, or (knob `lazy_spin`) an ordinary scheduling point.
+pub fn spin_hint() {
+  if RATES.with(|r| r.get()).lazy_spin {
+    SWITCH_POINT.with(|a| {
+      let _ = a.load(std::sync::atomic::Ordering::SeqCst);
+    });
+  } else {
+    shuttle::hint::spin_loop();
   }
 }
 
